@@ -1238,7 +1238,13 @@ func staysInSandbox(args []string) bool {
 		}
 		first = false
 	}
-	j := strings.Join(args, "/")
+	var nonEmpty []string
+	for _, a := range args {
+		if a != "" {
+			nonEmpty = append(nonEmpty, a) // filepath.Join ignores empty elements
+		}
+	}
+	j := strings.Join(nonEmpty, "/")
 	var comps []string
 	depth := 0 // components below the sandbox root
 	if strings.HasPrefix(j, "/") {
@@ -1587,7 +1593,7 @@ func genMain(w *bufio.Writer, a map[string]string) {
 		}
 		n := 760
 		if thorough {
-			n = 5000
+			n = 40000
 		}
 		for i := 0; i < n; i++ {
 			fmt.Fprintln(w, g.c12Random().encode())
@@ -1603,7 +1609,7 @@ func genMain(w *bufio.Writer, a map[string]string) {
 		}
 		n := 400
 		if thorough {
-			n = 3000
+			n = 15000
 		}
 		for i := 0; i < n; {
 			tc := g.c12Random()
@@ -1616,7 +1622,7 @@ func genMain(w *bufio.Writer, a map[string]string) {
 	case "C13":
 		n := 560
 		if thorough {
-			n = 5000
+			n = 30000
 		}
 		for i := 0; i < n; i++ {
 			fmt.Fprintln(w, g.c13Random().encode())
